@@ -66,6 +66,11 @@ fn one(entry: &str, s: &str) -> Value {
             Err(es) => json!({"class": "err", "errors": es.iter().map(|e| json!({"kind": e.to_string(), "spans": spans_of(e)})).collect::<Vec<_>>()}),
         },
         "lex" => match LRNonStreamingLexerDef::<DefaultLexerTypes<u32>>::from_str(s) {
+            Ok(def) => json!({"class": "ok", "errors": [], "warnings": [], "def": crate::lex::def_json(&def)}),
+            Err(es) => json!({"class": "err", "errors": es.iter().map(|e| json!({"kind": e.to_string(), "spans": spans_of(e)})).collect::<Vec<_>>()}),
+        },
+        // the same text through the other public entry point (flags given by the caller)
+        "lex_opts" => match LRNonStreamingLexerDef::<DefaultLexerTypes<u32>>::new_with_options(s, lrlex::DEFAULT_LEX_FLAGS) {
             Ok(_) => json!({"class": "ok", "errors": [], "warnings": []}),
             Err(es) => json!({"class": "err", "errors": es.iter().map(|e| json!({"kind": e.to_string(), "spans": spans_of(e)})).collect::<Vec<_>>()}),
         },
